@@ -989,7 +989,8 @@ func (c *Compiler) writeNode(node, parent *node, recv, v, vsrc string, depth int
 			if mode == modeSet {
 				c.wl("inspector.AssignBuf(", pfx, v, ", value, buf)")
 			}
-			if parent.typ != typeMap {
+			if parent.typ != typeMap && parent.typ != typeSlice {
+				// A map value or slice element was assigned through a local copy: go on to the write-back.
 				c.wl("return nil")
 			}
 		}
